@@ -458,6 +458,16 @@ pub fn routing(ix: &DIndex, metric: Metric) -> Result<(RoutingStats, BTreeSet<u3
                         clean = false;
                         continue;
                     }
+                    // a float normal with a non-finite component is not the all-zero dummy plane, yet no margin
+                    // against it is defined: the items below it were placed at random and a query equal to one of
+                    // them is sent to one child first whatever the item's side — the clause fails for every item
+                    // of the other child
+                    if !metric.is_bq() && f32_components(normal).iter().any(|x| !x.is_finite()) {
+                        return fail(
+                            "R/non-finite-normal",
+                            format!("tree {root}: split {split_id} stores a normal with a non-finite component (not the zeroed dummy plane); item {it} and the others below it lie on a side no margin defines"),
+                        );
+                    }
                     if metric.is_bq() {
                         let ones: u32 = normal.iter().map(|b| b.count_ones()).sum();
                         if ones as usize * 2 == normal.len() * 8 {
